@@ -56,6 +56,11 @@ pub struct WireState {
     pub recv_log: Vec<(usize, Bytes)>,
     /// number of recv() polls that found nothing
     pub empty_polls: u64,
+    /// number of send() calls that have completed (successfully or not)
+    pub send_attempts: usize,
+    /// send ordinal (0 = the client hello) -> that send reports an I/O error; `true`: after the
+    /// bytes were handed to the peer (a flush that fails late), `false`: nothing was delivered
+    pub send_faults: std::collections::BTreeMap<usize, bool>,
 }
 
 #[derive(Clone, Default)]
@@ -190,11 +195,30 @@ impl SendHandle for MemSender {
                 if let Some(k) = st.send_credits.as_mut() {
                     *k -= 1;
                 }
+                let ordinal = st.send_attempts;
+                st.send_attempts += 1;
                 if st.send_fails || st.closed {
                     return Poll::Ready(Err(io_err(
                         std::io::ErrorKind::BrokenPipe,
                         "peer closed the connection",
                     )));
+                }
+                match st.send_faults.get(&ordinal).copied() {
+                    Some(false) => {
+                        return Poll::Ready(Err(io_err(
+                            std::io::ErrorKind::TimedOut,
+                            "injected: write failed",
+                        )))
+                    }
+                    Some(true) => {
+                        let d = data.take().expect("send polled after completion");
+                        st.sent.push(d);
+                        return Poll::Ready(Err(io_err(
+                            std::io::ErrorKind::TimedOut,
+                            "injected: flush failed after the bytes were written",
+                        )));
+                    }
+                    None => {}
                 }
                 let d = data.take().expect("send polled after completion");
                 st.sent.push(d.clone());
